@@ -18,7 +18,7 @@ import mtscomp
 
 NS = 1300
 NWINDOW = 600
-ASSIGN = [0, 1, 1, 0]            # four sites on two shanks (+ sync)
+ASSIGN = [0, 1, 1, 1]            # four sites on two shanks of different size (+ sync)
 RATIO = 12
 
 
@@ -371,7 +371,7 @@ CHECK = {
     "property": "C04",
     "rule": "states are distinct directory contents (exact sha1 canonical form); transitions are real converter runs; non-trivial = reached through a crash or a history of >= 2 runs",
     "assumptions": [
-        "recording: 4 sites on two shanks (+sync), 1300 samples, processing window 600 (3 windows, short last one); NP2.4 from .bin and from .cbin, NP2.1, NP1",
+        "recording: 4 sites on two shanks of 1 and 3 sites (+sync), 1300 samples, processing window 600 (3 windows, short last one); NP2.4 from .bin and from .cbin, NP2.1, NP1",
         "deviation points: every filesystem mutation below the session directory seen by an audit hook (open for writing, mkdir, rename, remove) and every entry of a named "
         "processing step (window write, close, metadata, verification, compression, per-chunk compression, deletion); a crash is raised *before* the point; data still in "
         "Python buffers is flushed when the dead converter is collected (only affects files that are incomplete outputs anyway)",
